@@ -56,7 +56,9 @@ func (d *slidingWindowDetector) Check(seq uint64) (func() bool, bool) {
 	}
 
 	return func() bool {
-		latest := seq == 0
+		// 0 is the newest accepted number only while the window is still at
+		// its initial position; a late 0 must not be reported as latest.
+		latest := seq == 0 && d.latestSeq == 0
 		if seq > d.latestSeq {
 			// Update the head of the window.
 			d.mask.Lsh(uint(seq - d.latestSeq))
